@@ -43,6 +43,14 @@ CHECKS = {
          "MisformedRegexError may escape. Exploration.",
          "Trusts vlib/ref_regex.py as the reading of the documented grammar; 'grey' strings (missing right operand, empty group, empty text) are free.",
          "DESIGN.md section 4, C05"),
+ "C07": (PBT + " (differential testing against CPython re.fullmatch; AST-based pattern generator with positive sampling)",
+         "Patterns generated from an AST over the documented subset with strings sampled from the AST, their one-edit mutations, all one-character "
+         "strings and random strings: PythonRegex(p).accepts(s) == (re.fullmatch(p, s) is not None); patterns rejected by re.compile must be refused. "
+         "Four genuine defects of the set handling stay open (known_findings.json: F07d leading ], F07e shortcut followed by a metacharacter in a set, "
+         "F07f escaped backslash before d/w/s, F07g negated sets with escapes/shortcuts): their witnesses are replayed and reported as KNOWN-FINDING, "
+         "their feature classes are excluded by construction from generation (counted in excluded_by_finding). Exploration.",
+         "Trusts CPython's re; '[' inside a set is left out (Python itself warns about its future meaning).",
+         "DESIGN.md section 4, C07"),
  "C08": (PBT + " (bounded language by least fixpoint, no parser); exhaustive small scope in the thorough tier",
          "Generated grammars (epsilon/unit/recursive/useless productions, shared spellings, reserved fresh names, both constructors): contains, "
          "`in`, generate_epsilon on every word <=3 over terminals+foreign and the members / some non-members of length 4 must equal membership in the "
